@@ -87,6 +87,21 @@ def gen_schedule(rng, kind):
                 steps[i]["drop"] = True
             elif rng.random() < 0.3:
                 steps[i]["msg"] = gen_msg(rng, sname, None)
+    if kind == "pingwrite":      # keep-alive pings written a byte at a time while dumps are in progress
+        sched["settings"] = sname = rng.choice(["S3", "S1"])
+        sched["keepalive"] = 1
+        for i in range(n):
+            steps[i]["dt"] = rng.choice([300, 400, 600])
+        k0 = rng.randint(8, 16)
+        steps[k0]["max_write"] = rng.choice([1, 1, 2, 3])
+        for i in range(k0 + 1, n):
+            r = rng.random()
+            if r < 0.05:
+                steps[i]["max_write"] = rng.choice([1, 2, 1 << 20])
+            elif r < 0.15:
+                steps[i]["msg"] = gen_msg(rng, sname, None)
+            elif r < 0.2:
+                steps[i]["api"] = "dump"
     if kind == "early":          # (retained) sets delivered between subscription and initial dump
         for i in range(6, min(n, 30)):
             if rng.random() < 0.3:
@@ -142,16 +157,30 @@ def gen_schedule(rng, kind):
                 steps[i]["api"] = "reset"
             elif r < 0.2 and i > 8:
                 steps[i]["msg"] = gen_msg(rng, sname, None)
+    if kind in ("backpressure", "faults", "normal") and rng.random() < 0.5:
+        # a short keep-alive: PINGREQ / PINGRESP traffic competes for the socket with the publications
+        # (requests are always delivered with QoS 0: the client subscribes with maximum QoS 0)
+        sched["keepalive"] = rng.choice([1, 2, 5])
     sched["steps"] = steps
     return sched
 
 
-KINDS = ["normal", "requests", "early", "faults", "backpressure", "api", "oversize", "startup"]
+KINDS = ["normal", "requests", "early", "faults", "backpressure", "api", "oversize", "startup", "pingwrite"]
 
 
 def schedules_for(rng, tier):
-    n = 80 if tier == "quick" else 1200
-    return [gen_schedule(random.Random(rng.getrandbits(64)), KINDS[i % len(KINDS)]) for i in range(n)]
+    n = 90 if tier == "quick" else 1350
+    scheds = [gen_schedule(random.Random(rng.getrandbits(64)), KINDS[i % len(KINDS)]) for i in range(n)]
+    # dedicated stream (matched against known_findings.txt, not compared with the model): a session-state buffer that
+    # holds more than minimq's 10 tracked publications, and a broker that withholds its acknowledgements
+    for j in range(2 if tier == "quick" else 8):
+        r = random.Random(rng.getrandbits(64))
+        k = r.randint(0, 9)
+        steps = [dict(dt=400) for _ in range(40)]
+        steps[k]["ack"] = False
+        scheds.append(dict(settings="S3", init=dict(e=True), prefix=PREFIX, buffer=16384, session=8192, tx=1024, kind="inflight",
+                           known="minimq-inflight-overflow", steps=steps))
+    return scheds
 
 
 # ------------------------------------------------------------------ run + cache
@@ -238,7 +267,10 @@ def build_envs(sched, res):
     all_leaves = [p for p, _ in res["leaves"]]
     prefix = sched["prefix"]
     ever_connack = False
+    max_write = 1 << 62
     for st_in, st in zip(sched["steps"], res["steps"]):
+        if "max_write" in st_in:
+            max_write = st_in["max_write"]
         if "after" not in st:
             envs.append(None)
             continue
@@ -321,7 +353,9 @@ def build_envs(sched, res):
             big = len(m.get("resp", "")) > 128 or sched.get("buffer", 4096) < 2048
             if big and not starts_multipart(m, orc, st):
                 reply_ok = any(p["topic"] == m.get("resp", topic) for p in pubs)
-            if not (b["can_publish"] and quiet_state):
+            # minimq's own packets (PINGREQ under a short keep-alive, anything under partial writes) can take the
+            # socket inside poll(), before the handler runs: then the capacity is only known from what was accepted
+            if not (b["can_publish"] and quiet_state and not sched.get("keepalive") and max_write >= (1 << 20)):
                 accepted = "(Some %d%%nat)" % len(pubs)
             poll = "(Msg {| m_settings := %s; m_empty := %s; m_resp := %s; m_cd := %s; m_ans := %s; m_reply_ok := %s |})" % (
                 coq_opt_bytes(b2l(topic)) if is_settings else "None", "true" if not m.get("payload") else "false",
